@@ -272,6 +272,6 @@ pub fn raw(case: &Value) -> Value {
     })
 }
 
-fn main() {
+pub fn main() {
     tt_harness::dispatch(&[("emit", emit), ("raw", raw)]);
 }
